@@ -252,11 +252,12 @@ def selection_cases():
     out = []
     root = tempfile.mkdtemp(prefix='c13s-', dir=tlc.WORK_ROOT)
     try:
-        names = ['r1', 'r12', 'x.y']
+        names = ['r1', 'r12', 'x.y', 'xzy']          # 'xzy' is what 'x.y' matches when a listed NAME is mistaken for a pattern
         res = [(n, [('a', 'integer')], [dict(a=i * 10 + k) for k in range(2)]) for i, n in enumerate(names)]
         with contextlib.redirect_stdout(io.StringIO()):
             DF.Flow(tuple_source(res), DF.dump_to_path(os.path.join(root, 'pkg'))).process()
-        for sel, want in [(None, names), ('r1', ['r1']), ('r1.*', ['r1', 'r12']), (['x.y', 'r1'], ['r1', 'x.y']), (-1, ['x.y']), (0, ['r1']), ('x.y', ['x.y']), ([], [])]:
+        for sel, want in [(None, names), ('r1', ['r1']), ('r1.*', ['r1', 'r12']), (['x.y', 'r1'], ['r1', 'x.y']), (-1, ['xzy']), (-2, ['x.y']), (0, ['r1']),
+                          ('x.y', ['x.y', 'xzy']), (['x.y'], ['x.y']), (['r1.*'], []), ('x\\.y', ['x.y']), ([], [])]:
             for kind in ('datapackage', 'tuple'):
                 try:
                     with contextlib.redirect_stdout(io.StringIO()):
